@@ -108,8 +108,15 @@ def run(pid, tier):
     impl_classes = set()
     runs = [("pair", 2, 2, 1), ("cloud", 2, 1, 1)] if quick else \
            [("pair", 2, 3, 1), ("pair", 3, 2, 1), ("cloud", 2, 1, 2), ("cloud", 2, 2, 1)]
-    for kind, nkeys, maxver, maxw in runs:
-        ex = kvv.extract(binpath, kind, nkeys, maxver, maxw, threads=8)
+    # state caps: about three times what the stores have at HEAD (a faulty store can have many more)
+    caps = {("pair", 2, 2): 400, ("pair", 2, 3): 700, ("pair", 3, 2): 5000, ("cloud", 2, 1): 20000,
+            ("cloud", 2, 2): 400000}
+    adir = vlib.workdir("kvv-alphabets")
+    afiles = ["%s/alphabet-%d.json" % (adir, i) for i in range(len(runs))]
+    kvv.alphabets([(k, n, v, f) for (k, n, v, _), f in zip(runs, afiles)])
+    for (kind, nkeys, maxver, maxw), af in zip(runs, afiles):
+        ex = kvv.extract(binpath, kind, nkeys, maxver, maxw, threads=8, alpha_from=af,
+                         max_states=caps.get((kind, nkeys, maxver), 100000))
         r = kvv.impl_tlc(ex, workers=8)
         rep = r["report"]
         name = "B_impl_%s_K%d_V%d_W%d" % (kind, nkeys, maxver, maxw)
@@ -119,6 +126,7 @@ def run(pid, tier):
             "product_transitions": r["states"], "spec_divergences": len(rep["divergences"]),
             "malformed_dumps": rep["malformed"], "violation_classes": sorted(set(c for c, _ in r["classes"])),
             "exploration_complete": r["complete"], "tlc_runs": r["runs"],
+            "truncated_by_state_cap": bool(ex["stats"].get("truncated")), "truncated_edges": rep["truncated_edges"],
             "wall_s": round(r["wall_s"] + ex["wall_s"], 1)}
         if kind == "pair":
             cov["legs"][name]["edges_flagged_by_some_clause"] = rep["flagged_edges"]
@@ -152,10 +160,16 @@ def run(pid, tier):
                                    "violation_classes": sorted(set(c for c, _ in tr["classes"])),
                                    "wall_s": round(tr["wall_s"], 1)}
     divergences += [{"run": "sim", **x} for x in trep["divergences"][:10]]
+    recorded = {}
+    if tr["classes"]:
+        for line in open(steps_file):
+            e = json.loads(line)
+            recorded[(e["seq"], e["step"])] = {b: e[b]["resp"][0] for b in ("m", "r", "c") if b in e}
     for c, where in tr["classes"]:
         impl_classes.add(c)
         sq = seqs[where["seq"]]
-        hist = [{"req": q} for q in sq["reqs"][:where["step"] + 1]]
+        hist = [{"req": q, "resp": recorded.get((where["seq"], i), {})}
+                for i, q in enumerate(sq["reqs"][:where["step"] + 1])]
         violations.append(_violation(c, hist, sq["kind"], "C"))
 
     code, unknown, known = vlib.verdict(pid, violations)
